@@ -27,7 +27,10 @@ def compile_setters(model) -> Dict[str, Setter]:
     methods = {n: f.node for n, f in model.classes[f"{BASE}:Element"].methods.items()}
     for m in NUMERIC_SETTERS:
         fi = model.fi(BASE, f"Element.{m}")
-        out[m] = Setter(fi.node, f"Element.{m}", methods)
+        def resolve_function(nm, _m=model):
+            r = _m.resolve(BASE, nm)
+            return _m.funcs[r[1]].node if r and r[0] == "func" and r[1] in _m.funcs else None
+        out[m] = Setter(fi.node, f"Element.{m}", methods, resolve_function)
     # no subclass may override them unnoticed
     elem_q = f"{BASE}:Element"
     for cq in model.subclasses(elem_q):
@@ -235,6 +238,10 @@ def check(ctx: Ctx) -> None:
                     exp = (x if w["v"] > w[x] else "v", "l", x)
                 if not same(w, out.state, exp):
                     bad_post = bad_post or (w, x, out, f"state after success is {out.state}, expected {exp}")
+        if S.lazy_pairs is not None:
+            ctx.violation("R14.1", f"{m}:lazy-argument-refusal", BASE, S.lazy_pairs,
+                          f"{m} iterates over pairs that are validated lazily (a generator that can raise after it has yielded): a call refused because of a "
+                          f"duplicate/invalid later pair has already applied the earlier ones, so the refused update does not leave the element unchanged")
         if bad_store:
             w, x, out = bad_store
             ctx.violation("R14.1", f"{m}:store-before-refusal", BASE, fi.node,
